@@ -119,18 +119,37 @@ pub fn fit_tree(case: &TreeCase, x: &Rows, queries: &Rows) -> Result<Result<(Val
     let qm = DenseMatrix::from_2d_vec(&all);
     catch(|| {
         if case.classifier {
-            let mut p = DecisionTreeClassifierParameters::default().with_criterion(crit(case.criterion)).with_min_samples_leaf(case.min_samples_leaf).with_min_samples_split(case.min_samples_split);
-            if let Some(d) = case.max_depth {
-                p = p.with_max_depth(d);
-            }
+            // builder calls in two orders (a setter that rebuilds from the defaults would lose earlier settings)
+            let p = if x.len() % 2 == 0 {
+                let mut p = DecisionTreeClassifierParameters::default().with_criterion(crit(case.criterion)).with_min_samples_leaf(case.min_samples_leaf).with_min_samples_split(case.min_samples_split);
+                if let Some(d) = case.max_depth {
+                    p = p.with_max_depth(d);
+                }
+                p
+            } else {
+                let mut p = DecisionTreeClassifierParameters::default();
+                if let Some(d) = case.max_depth {
+                    p = p.with_max_depth(d);
+                }
+                p.with_min_samples_split(case.min_samples_split).with_min_samples_leaf(case.min_samples_leaf).with_criterion(crit(case.criterion))
+            };
             let m = DecisionTreeClassifier::fit(&xm, &case.y, p).map_err(|e| format!("fit: {}", e))?;
             let v = serde_json::to_value(&m).map_err(|e| e.to_string())?;
             Ok((v, m.predict(&qm).map_err(|e| format!("predict: {}", e))?))
         } else {
-            let mut p = DecisionTreeRegressorParameters::default().with_min_samples_leaf(case.min_samples_leaf).with_min_samples_split(case.min_samples_split);
-            if let Some(d) = case.max_depth {
-                p = p.with_max_depth(d);
-            }
+            let p = if x.len() % 2 == 0 {
+                let mut p = DecisionTreeRegressorParameters::default().with_min_samples_leaf(case.min_samples_leaf).with_min_samples_split(case.min_samples_split);
+                if let Some(d) = case.max_depth {
+                    p = p.with_max_depth(d);
+                }
+                p
+            } else {
+                let mut p = DecisionTreeRegressorParameters::default();
+                if let Some(d) = case.max_depth {
+                    p = p.with_max_depth(d);
+                }
+                p.with_min_samples_split(case.min_samples_split).with_min_samples_leaf(case.min_samples_leaf)
+            };
             let m = DecisionTreeRegressor::fit(&xm, &case.y, p).map_err(|e| format!("fit: {}", e))?;
             let v = serde_json::to_value(&m).map_err(|e| e.to_string())?;
             Ok((v, m.predict(&qm).map_err(|e| format!("predict: {}", e))?))
